@@ -364,7 +364,7 @@ def _bound_product(step):
 
 
 EDIT_KINDS = ["default", "default", "default_unswept", "values", "toggle", "reorder", "drop", "add", "table", "dask",
-              "mode", "nothing"]
+              "mode", "nothing", "placeholder"]
 
 
 def edit_step(r, prev, kind):
@@ -461,6 +461,23 @@ def edit_step(r, prev, kind):
                     if len(seen) != len(p["values"]):
                         p["values"] = seen
                         p.pop("expr", None)
+    elif kind == "placeholder":
+        # a request that must be refused ('_' outside custom mode) -- or, if the previous one was, a valid one again
+        if custom:
+            return edit_step(r, prev, "table")
+        ph = [p for p in step["params"] if p["kind"] != "lit"]
+        if ph:
+            for p in ph:
+                q = gen_values(r, slots[p["slot"]], nodup=step["dask"], fine=fine)
+                p.pop("n", None)
+                p.update(q)
+            kind = "unplaceholder"
+        else:
+            p = r.choice(en)
+            for k in ("values", "expr", "ints"):
+                p.pop(k, None)
+            sl = slots[p["slot"]]
+            p.update(dict(kind="under") if sl["vlen"] == 0 else dict(kind="unders", n=sl["vlen"]))
     elif kind == "mode":
         if custom:
             return edit_step(r, prev, "table")
@@ -477,7 +494,14 @@ def edit_step(r, prev, kind):
         fill_custom_table(r, step, slots, dask=step["dask"], fine=fine)
     _bound_product(step)
     step["edit"] = kind
-    step["edit_style"] = r.choice(["replace", "replace", "inplace", "rebuild"]) if kind != "mode" else "rebuild"
+    if kind == "mode":
+        step["edit_style"] = "rebuild"
+    elif kind in ("default", "default_unswept", "dask", "nothing"):
+        step["edit_style"] = "replace"
+    else:
+        step["edit_style"] = r.choice(["replace", "replace", "inplace", "rebuild"])
+    # the next run gets the SAME detector and pipeline objects, edited in place -- or new ones with that configuration
+    step["objects"] = "new" if r.random() < 0.3 else "same"
     return step, kind
 
 
@@ -508,6 +532,7 @@ def gen_histories(ctx: Ctx, budget: int):
                 out.append(gen_history(r, mode, "L1" if kind != "toggle" else "L3", dask=dask, edits=[kind], nruns=2,
                                        fine=False))
     for dask in (False, True):
+        out.append(gen_history(r, "product", "L1", dask=dask, edits=["placeholder", "placeholder"], nruns=3))
         out.append(gen_history(r, "custom", "L1", dask=dask, edits=["table", "default"], nruns=3))
         out.append(gen_history(r, "sequential", "L1", dask=dask, edits=["dask", "default"], nruns=3))
         out.append(gen_history(r, "product", "L3", dask=dask, edits=["mode", "toggle"], nruns=3))
@@ -1067,6 +1092,7 @@ def history_leg(ctx: Ctx, hists, tag="h"):
             ctx.dist("history_mode", c["mode"] + ("/dask" if c.get("dask") else ""))
             if j:
                 ctx.dist("history_edit", f"{c.get('edit')}/{c.get('edit_style')}")
+                ctx.dist("history_objects", c.get("objects", "same"))
                 ctx.dist("history_outcome_after_edit", o["raised"] or "ok")
     ctx.cov["history_runs_judged"] = ctx.cov.get("history_runs_judged", 0) + nruns
     return mism, viol, hp
